@@ -74,6 +74,9 @@ func (fc *FnCtx) tr(st *State, e ast.Expr) Val {
 	case *ast.CompositeLit:
 		return fc.trComposite(st, x)
 	case *ast.StarExpr:
+		if k, et, ok := fc.derefKey(x); ok {
+			return fc.readKey(st, k, et)
+		}
 		return fc.tr(st, x.X)
 	case *ast.FuncLit:
 		return Val{S: SOpaque, T: "0", GT: fc.typeOf(x)}
@@ -378,6 +381,35 @@ func (fc *FnCtx) concat(st *State, a, b Val) Val {
 	return Val{T: "(scat " + a.T + " " + b.T + ")", S: SStr}
 }
 
+
+// derefKey: *p where p is a variable (parameter, receiver, local) of type pointer to a scalar
+// or string type: the key of the pointee cell.
+func (fc *FnCtx) derefKey(x *ast.StarExpr) (string, types.Type, bool) {
+	id, ok := x.X.(*ast.Ident)
+	if !ok {
+		return "", nil, false
+	}
+	var obj types.Object
+	if fc.scope != nil {
+		if o, ok := fc.scope.lookupObj(id.Name); ok {
+			obj = o
+		}
+	} else if info := fc.info(); info != nil {
+		obj = info.ObjectOf(id)
+	}
+	if obj == nil {
+		return "", nil, false
+	}
+	pt, ok := obj.Type().Underlying().(*types.Pointer)
+	if !ok {
+		return "", nil, false
+	}
+	switch sortOf(pt.Elem()) {
+	case SInt, SBool, SStr:
+		return objKey(obj) + ".$deref", pt.Elem(), true
+	}
+	return "", nil, false
+}
 
 func (fc *FnCtx) safetyOn() bool {
 	return fc.scope == nil && fc.contract != nil && !fc.contract.Extern && fc.noSafety == 0
